@@ -73,7 +73,7 @@ class Inliner:
                 else:
                     raise A.Undecided("missing argument %s of %s" % (p, f.name))
         self.inlined.add(f.construct)
-        sub = A.Interp(env, dict(it.attr), self.hook)
+        sub = A.Interp(env, dict(it.attr), self.hook, f.module)
         sub.run(f.node.body)
         if sub.ret is None or isinstance(sub.ret, str):
             raise A.Undecided("%s does not return a value on this path" % f.name)
@@ -110,7 +110,7 @@ def eval_method(repo, kcls, name, method, apply_weighting, unit_weight):
     env = {f.params[1]: A.sym("yhat")}
     if len(f.params) > 2:
         env[f.params[2]] = apply_weighting
-    it = A.Interp(env, attr, inl.hook)
+    it = A.Interp(env, attr, inl.hook, f.module)
     it.run(f.node.body)
     if it.ret is None or isinstance(it.ret, str):
         raise A.Undecided("%s.%s does not return a value" % (name, method))
